@@ -18,6 +18,7 @@ import (
 	"os"
 	"regexp"
 	"runtime"
+	"sort"
 	"strconv"
 	"strings"
 	"sync"
@@ -67,30 +68,31 @@ type gstate struct {
 }
 
 type run struct {
-	sc        scenario
-	loop      *eventloop.EventLoop
-	mu        sync.Mutex
-	gs        map[int64]*gstate
-	events    []string
-	t0        time.Time
-	rng       *hx.Rng
-	jobIDs    map[interface{}]int
-	nJobs     int
-	nFn       int
-	nLoopG    int
-	jsH       map[int]goja.Value
-	goT       map[int]*eventloop.Timer
-	goI       map[int]*eventloop.Interval
-	started   chan struct{} // closed/sent when a foreground start has passed setRunning
-	stuck     bool
-	steps     int
-	cbDepth   int
-	pctChange []int
-	epoch     int
-	spawns    int // goroutines that have been started but have not registered yet (the system is not settled)
-	inJS      bool
-	aborted   bool
-	errors    []string
+	sc           scenario
+	loop         *eventloop.EventLoop
+	mu           sync.Mutex
+	gs           map[int64]*gstate
+	events       []string
+	t0           time.Time
+	rng          *hx.Rng
+	jobIDs       map[interface{}]int
+	nJobs        int
+	nFn          int
+	nLoopG       int
+	jsH          map[int]goja.Value
+	goT          map[int]*eventloop.Timer
+	goI          map[int]*eventloop.Interval
+	started      chan struct{} // closed/sent when a foreground start has passed setRunning
+	stuck        bool
+	steps        int
+	cbDepth      int
+	pctChange    []int
+	epoch        int
+	spawns       int // goroutines that have been started but have not registered yet (the system is not settled)
+	inJS         bool
+	aborted      bool
+	errors       []string
+	lastReleased *gstate
 }
 
 var cur *run
@@ -202,6 +204,12 @@ func hook(loop *eventloop.EventLoop, point string, obj interface{}) {
 		g = &gstate{goid: id, role: role, ch: make(chan struct{}, 1), prio: len(r.gs), born: r.epoch}
 		r.gs[id] = g
 	}
+	if lr := r.lastReleased; lr != nil && lr != g && !lr.parked && (g.role == "C" || g.role == "F" || g.role[0] == 'S' || g.role[0] == 'L') {
+		// the goroutine the scheduler released is still on its way to its next yield point, and this one arrives:
+		// it had been blocked on a lock (or condition) that the released one has just let go.  Both run at once,
+		// so this snapshot may show half of the other's segment: the driver does not compare it.
+		r.events = append(r.events, "Q,"+g.role)
+	}
 	ev := fmt.Sprintf("Y,%s,%s,%s,%s,@%d", g.role, point, r.jobID(obj), r.snapshot(), r.us())
 	r.events = append(r.events, ev)
 	g.parked = true
@@ -224,6 +232,9 @@ func (r *run) yield(point string) {
 	if g == nil {
 		r.mu.Unlock()
 		return
+	}
+	if lr := r.lastReleased; lr != nil && lr != g && !lr.parked {
+		r.events = append(r.events, "Q,"+g.role) // see hook
 	}
 	r.events = append(r.events, fmt.Sprintf("Y,%s,%s,-,%s,@%d", g.role, point, r.snapshot(), r.us()))
 	g.parked = true
@@ -767,6 +778,7 @@ func execScenario(sc scenario) (line string) {
 		g := r.pick(parked)
 		r.mu.Lock()
 		g.parked = false
+		r.lastReleased = g
 		r.events = append(r.events, "R,"+g.role+","+g.point)
 		r.mu.Unlock()
 		r.steps++
@@ -846,6 +858,209 @@ finished:
 		}()
 	}
 	return "EL " + strings.Join(evs, " ")
+}
+
+// ------------------------------------------------------------------------------------------ flood scenarios
+//
+// The stepwise scheduler cannot afford batches of hundreds of functions (two yield points per submission).  A flood
+// scenario runs the real loop freely (hooks off): several goroutines submit bursts of up to 700 functions while a
+// function blocks the loop for a moment so that the queue builds up; functions submit further functions from the
+// loop; the loop is stopped and started again in between.  The line lists, per submitter, what it submitted in its
+// order (with the value RunOnLoop returned) and, in execution order, what ran; the Lean driver evaluates C04's
+// clauses on it (exactly once, never a refused one, each submitter's order kept).
+// execStaged: a deterministic flood.  A function blocks the loop while n1 functions are queued behind it, one of
+// which (at a position just beyond a power of two) blocks again while n2 more are queued; then everything runs.
+// Batches are far longer than any bound an implementation might put on one round of the queue, and the second
+// burst arrives while the remainder of the first is being executed.
+func execStaged(seed uint64) string {
+	cur = nil
+	rng := hx.NewRng(seed)
+	loop := eventloop.NewEventLoop(eventloop.EnableConsole(false))
+	var mu sync.Mutex
+	var executed []string
+	var subs []string
+	k := 0
+	submit := func(f func()) {
+		k++
+		id := fmt.Sprintf("W0:%d", k)
+		ok := loop.RunOnLoop(func(*goja.Runtime) {
+			mu.Lock()
+			executed = append(executed, id)
+			mu.Unlock()
+			if f != nil {
+				f()
+			}
+		})
+		subs = append(subs, fmt.Sprintf("%d:%v", k, ok))
+	}
+	c1, c2 := make(chan struct{}), make(chan struct{})
+	s1, s2 := make(chan struct{}), make(chan struct{})
+	loop.Start()
+	fin := make(chan string, 1)
+	go func() {
+		submit(func() { close(s1); <-c1 })
+		<-s1 // the loop is inside the first function
+		p2 := []int{33, 65, 129, 257, 258, 300, 513}[rng.Intn(7)] + rng.Intn(3)
+		n1 := p2 + 1 + rng.Intn(300)
+		for i := 1; i <= n1; i++ {
+			if i == p2 {
+				submit(func() { close(s2); <-c2 })
+			} else {
+				submit(nil)
+			}
+		}
+		close(c1)
+		<-s2 // the loop is inside the second blocker, somewhere in the first burst
+		n2 := 200 + rng.Intn(900)
+		for i := 0; i < n2; i++ {
+			submit(nil)
+		}
+		close(c2)
+		drained := make(chan struct{})
+		if loop.RunOnLoop(func(*goja.Runtime) { close(drained) }) {
+			<-drained
+		}
+		if rng.Bool() {
+			loop.Stop()
+		}
+		loop.Terminate()
+		fin <- "ok"
+	}()
+	select {
+	case <-fin:
+	case <-time.After(30 * time.Second):
+		return fmt.Sprintf("ELF %d HANG", seed)
+	}
+	mu.Lock()
+	defer mu.Unlock()
+	return fmt.Sprintf("ELF %d S W0 %s X %s", seed, strings.Join(subs, ","), strings.Join(executed, " "))
+}
+
+func execFlood(seed uint64) string {
+	if seed%2 == 0 {
+		return execStaged(seed)
+	}
+	cur = nil
+	rng := hx.NewRng(seed)
+	loop := eventloop.NewEventLoop(eventloop.EnableConsole(false))
+	var mu sync.Mutex
+	var executed []string
+	subs := map[string][]string{} // submitter -> "k:ok" in submission order
+	var loopK int
+	var mk func(id string, depth int) func(*goja.Runtime)
+	mk = func(id string, depth int) func(*goja.Runtime) {
+		block := rng.Chance(3)
+		nest := 0
+		if depth < 2 && rng.Chance(6) {
+			nest = 1 + rng.Intn(3)
+		}
+		return func(*goja.Runtime) {
+			mu.Lock()
+			executed = append(executed, id)
+			mu.Unlock()
+			if block {
+				time.Sleep(time.Duration(200+len(id)*50) * time.Microsecond)
+			}
+			for i := 0; i < nest; i++ {
+				mu.Lock()
+				loopK++
+				myK := loopK
+				f := mk(fmt.Sprintf("L:%d", myK), depth+1)
+				mu.Unlock()
+				ok := loop.RunOnLoop(f)
+				mu.Lock()
+				subs["L"] = append(subs["L"], fmt.Sprintf("%d:%v", myK, ok))
+				mu.Unlock()
+			}
+		}
+	}
+	nw := 1 + rng.Intn(4)
+	var wg sync.WaitGroup
+	loop.Start()
+	for w := 0; w < nw; w++ {
+		w := w
+		wr := hx.NewRng(seed*131 + uint64(w) + 7)
+		bursts := 1 + wr.Intn(5)
+		wg.Add(1)
+		go func() {
+			defer wg.Done()
+			k := 0
+			name := fmt.Sprintf("W%d", w)
+			for b := 0; b < bursts; b++ {
+				n := 1 + wr.Intn(40)
+				if wr.Chance(40) {
+					n = 200 + wr.Intn(500)
+				}
+				for i := 0; i < n; i++ {
+					k++
+					id := fmt.Sprintf("%s:%d", name, k)
+					mu.Lock()
+					f := mk(id, 0)
+					mu.Unlock()
+					ok := loop.RunOnLoop(f)
+					mu.Lock()
+					subs[name] = append(subs[name], fmt.Sprintf("%d:%v", k, ok))
+					mu.Unlock()
+				}
+				if wr.Chance(50) {
+					time.Sleep(time.Duration(wr.Intn(800)) * time.Microsecond)
+				}
+			}
+		}()
+	}
+	done := make(chan struct{})
+	go func() {
+		defer close(done)
+		for c := rng.Intn(3); c > 0; c-- {
+			time.Sleep(time.Duration(100+rng.Intn(1500)) * time.Microsecond)
+			loop.Stop()
+			time.Sleep(time.Duration(rng.Intn(500)) * time.Microsecond)
+			loop.Start()
+		}
+		wg.Wait()
+		// whatever is still queued runs when the loop drains: wait until the queue has been seen empty
+		for i := 0; i < 2000; i++ {
+			drained := make(chan struct{})
+			if !loop.RunOnLoop(func(*goja.Runtime) { close(drained) }) {
+				break
+			}
+			<-drained
+			mu.Lock()
+			n := len(executed)
+			mu.Unlock()
+			time.Sleep(100 * time.Microsecond)
+			mu.Lock()
+			same := n == len(executed)
+			mu.Unlock()
+			if same {
+				break
+			}
+		}
+		loop.Stop()
+		loop.Terminate()
+	}()
+	select {
+	case <-done:
+	case <-time.After(30 * time.Second):
+		return fmt.Sprintf("ELF %d HANG", seed)
+	}
+	mu.Lock()
+	defer mu.Unlock()
+	var names []string
+	for n := range subs {
+		names = append(names, n)
+	}
+	sort.Strings(names)
+	var sb strings.Builder
+	fmt.Fprintf(&sb, "ELF %d", seed)
+	for _, n := range names {
+		fmt.Fprintf(&sb, " S %s %s", n, strings.Join(subs[n], ","))
+	}
+	sb.WriteString(" X")
+	for _, id := range executed {
+		sb.WriteString(" " + id)
+	}
+	return sb.String()
 }
 
 // ------------------------------------------------------------------------------------------ generator
@@ -1022,6 +1237,16 @@ func main() {
 	for i := 0; i < *n; i++ {
 		emit(g.scenario(*seed*1000003 + uint64(i)))
 	}
+	// flood scenarios (uncontrolled, large batches): a few per process
+	for i := 0; i < *n/12; i++ {
+		fs := *seed*7919 + uint64(i)
+		fmt.Fprintf(w, "#ELFLOOD %d\n", fs)
+		w.Flush()
+		fmt.Fprintf(w, "%s\n", execFlood(fs))
+		w.Flush()
+		st.Hit("scenario:flood")
+	}
+	cur = nil
 	if *statsPath != "" {
 		st.WriteJSON(*statsPath, map[string]interface{}{"seed": *seed})
 	}
